@@ -5302,6 +5302,11 @@ class DfaCompileCtx:
             if not transition.is_fallthrough and any(isinstance(y, (AppendTo, AppendCharTo)) for x in to_replace.actions for y in x.all_subactions()):
                 continue
 
+            # Nothing on a transition runs after an action which returns to the caller (a yield): the parser resumes in the target
+            # state. Actions moved behind one would be lost.
+            if to_replace.actions and any(x.may_return_early() for x in transition.actions):
+                continue
+
             if len(to_replace.actions) > 0:
                 max_count = ProgramData.option(ProgramOption.MAX_SHORTCIRCUIT_FALLTHROUGH) - ProgramData.option(ProgramOption.MAX_SHORTCIRCUIT_ACTION_PENALTY)*(len(to_replace.actions)-1)
                 if ignore_map_counter[(frozenset(to_replace.on_values), to_replace.target)] > max_count:
